@@ -299,6 +299,22 @@ func runIndepDelayed(c *IndepCase, flip bool) *evid.Violation {
 		}
 		it.in = in
 		items = append(items, it)
+		if mode != 6 && mode != 7 {
+			// the twin: the same payload from a buffer of its own, decoded right afterwards by the other function
+			in2 := append([]byte(nil), in...)
+			tw := item{in: in2, want: append([]byte(nil), in2[4:]...)}
+			var err error
+			if mode%2 == 0 {
+				tw.b, _, err = thrift.Binary.ReadBinary(in2)
+				tw.isB = true
+			} else {
+				tw.s, _, err = thrift.Binary.ReadString(in2)
+			}
+			if err != nil {
+				return evid.Failf("delayed pass: twin decode %d failed: %v", i, err)
+			}
+			items = append(items, tw)
+		}
 		if flip && i == n/2 {
 			thrift.SetSpanCache(false)
 			thrift.SetSpanCache(true)
@@ -324,6 +340,19 @@ func runIndepDelayed(c *IndepCase, flip bool) *evid.Violation {
 			items[i].in[j] = 0xEE
 		}
 		if v := verify(fmt.Sprintf("delayed pass, after overwriting only the input buffer of decode %d", i)); v != nil {
+			return v
+		}
+	}
+	// finally the returned byte slices themselves are written to, one at a time: no other value may follow
+	for i := range items {
+		if !items[i].isB {
+			continue
+		}
+		for j := range items[i].b {
+			items[i].b[j] = 0x22
+		}
+		items[i].want = bytes.Repeat([]byte{0x22}, len(items[i].b))
+		if v := verify(fmt.Sprintf("delayed pass, after writing to the byte slice returned by decode %d", i)); v != nil {
 			return v
 		}
 	}
